@@ -33,6 +33,24 @@ theorem temporal_count (trunc : α → Int) (P : List (Fix α)) (hn : 0 < P.leng
   intro t _
   simp [sampleT, lerpFix]
 
+/-- T1' `temporal_count_any_order`. On a track whose stamps never decrease, the requested instants may
+come in ANY order (repetitions included): `__resampleTemporal` raises nothing and returns exactly one
+observation per requested instant lying in `(tini, tfin]`, in the order of the request, stamped with that
+instant, each being the specification sample (T2). (Since the fix commit ee0419b: the scan restarts when the
+previous bracket is already past the instant, and an instant after the last fix no longer ends the loop.) -/
+theorem temporal_count_any_order (trunc : α → Int) (P : List (Fix α)) (hn : 0 < P.length)
+    (hT : (P.map (·.t)).Pairwise (· ≤ ·)) (ref : List α) :
+    ∃ out, resampleTemporal trunc P (.instants ref) = .ok out ∧
+      out = (ref.filter (inRange (P[0]).t (P[P.length - 1]).t)).map (sampleT P) ∧
+      out.length = (ref.filter (inRange (P[0]).t (P[P.length - 1]).t)).length ∧
+      out.map (·.t) = ref.filter (inRange (P[0]).t (P[P.length - 1]).t) := by
+  refine ⟨_, resampleTemporal_instants_any trunc P hn hT ref, rfl, by simp, ?_⟩
+  rw [List.map_map]
+  conv_rhs => rw [← List.map_id (ref.filter _)]
+  apply List.map_congr_left
+  intro t _
+  simp [sampleT, lerpFix]
+
 /-- T2 `temporal_bracket`. With strictly increasing stamps, the sample returned for an instant
 `t ∈ (tini, tfin]` uses the unique leg `r ≥ 1` with `T[r−1] < t ≤ T[r]` (so the denominator
 `T[r] − T[r−1]` is positive) and is `P[r−1] + ((t − T[r−1]) / (T[r] − T[r−1])) · (P[r] − P[r−1])`
@@ -316,12 +334,12 @@ example : resampleSpatialLegs (fun x : ℚ => x.floor) demo [5, 0, 5] 2
            ⟨24/5, 32/5, 4, 343/10⟩, ⟨6, 8, 0, 81/2⟩] := by decide +kernel
 
 
-/-- outside the hypotheses of T1/T2 (finding `unsorted-request-list`): instants that are not in chronological
-order are not interpolated — the model reproduces the code: `t = 15` is extrapolated on the leg bracketing `t = 25`
-(the true position is `(5, 0)`), and a list starting after the end returns nothing. -/
-example : resampleTemporal (fun x : ℚ => x.floor) [⟨0, 0, 0, 10⟩, ⟨10, 0, 0, 20⟩, ⟨10, 10, 0, 30⟩] (.instants [25, 15])
-    = .ok [⟨10, 5, 0, 25⟩, ⟨10, -5, 0, 15⟩] := by decide +kernel
+/-- T1' is not vacuous (former finding `unsorted-request-list`, repaired by ee0419b): instants that are not in
+chronological order are interpolated on their own legs (`t = 15` at `(5, 0)`), an instant after the end is skipped
+without ending the loop, and a repeated instant is answered twice. -/
+example : resampleTemporal (fun x : ℚ => x.floor) [⟨0, 0, 0, 10⟩, ⟨10, 0, 0, 20⟩, ⟨10, 10, 0, 30⟩] (.instants [25, 15, 40, 30, 12, 12, 5])
+    = .ok [⟨10, 5, 0, 25⟩, ⟨5, 0, 0, 15⟩, ⟨10, 10, 0, 30⟩, ⟨2, 0, 0, 12⟩, ⟨2, 0, 0, 12⟩] := by decide +kernel
 example : resampleTemporal (fun x : ℚ => x.floor) [⟨0, 0, 0, 10⟩, ⟨10, 0, 0, 20⟩] (.instants [21, 15])
-    = .ok [] := by decide +kernel
+    = .ok [⟨5, 0, 0, 15⟩] := by decide +kernel
 
 end TV.C05
